@@ -225,6 +225,85 @@ pub fn dump<'tcx>(tcx: TyCtxt<'tcx>, tag: &str) -> String {
             }
         }
     }
+    // ---- slot probes: local single-parameter ADTs with MaybeUninit storage (RetTmp), instantiated at each AC_* context
+    {
+        let mut ctxs: Vec<(String, Ty<'tcx>)> = vec![];
+        for ldid in items.definitions() {
+            let did = ldid.to_def_id();
+            if tcx.def_kind(did) == DefKind::TyAlias && path_s(tcx, did).contains("probes::auto_handles::") {
+                let name = tcx.item_name(did).to_string();
+                if name.starts_with("AC_") {
+                    let ty = tcx.type_of(did).instantiate_identity().skip_norm_wip();
+                    ctxs.push((name, tcx.erase_and_anonymize_regions(ty)));
+                }
+            }
+        }
+        if !ctxs.is_empty() {
+            for ldid in items.definitions() {
+                let did = ldid.to_def_id();
+                if tcx.def_kind(did) != DefKind::Struct {
+                    continue;
+                }
+                let adt = tcx.adt_def(did);
+                let g = tcx.generics_of(did);
+                let ntys = g.own_params.iter().filter(|p| matches!(p.kind, ty::GenericParamDefKind::Type { .. })).count();
+                if ntys != 1 || g.own_params.iter().any(|p| matches!(p.kind, ty::GenericParamDefKind::Const { .. })) {
+                    continue;
+                }
+                let has_slot = adt.all_fields().any(|f| {
+                    let t = ty_s(tcx.type_of(f.did).instantiate_identity().skip_norm_wip());
+                    t.contains("MaybeUninit<")
+                });
+                if !has_slot {
+                    continue;
+                }
+                for (cn, cty) in &ctxs {
+                    let args = ty::GenericArgs::for_item(tcx, did, |param, _| match param.kind {
+                        ty::GenericParamDefKind::Lifetime => tcx.lifetimes.re_erased.into(),
+                        _ => (*cty).into(),
+                    });
+                    let tenv = TypingEnv::fully_monomorphized();
+                    let mut fields = vec![];
+                    for f in adt.all_fields() {
+                        let fty = f.ty(tcx, args);
+                        let fty = tcx.try_normalize_erasing_regions(tenv, ty::Unnormalized::new(fty)).unwrap_or(fty);
+                        // peel Cell<..> / MaybeUninit<..>
+                        let mut inner = fty;
+                        let mut is_slot = false;
+                        loop {
+                            match inner.kind() {
+                                ty::Adt(a, aa) if tcx.def_path_str(a.did()).ends_with("cell::Cell") => {
+                                    inner = aa.type_at(0);
+                                }
+                                ty::Adt(a, aa) if tcx.def_path_str(a.did()).ends_with("MaybeUninit") => {
+                                    inner = aa.type_at(0);
+                                    is_slot = true;
+                                }
+                                _ => break,
+                            }
+                        }
+                        if is_slot {
+                            fields.push(obj(vec![
+                                ("name", q(f.name.as_str())),
+                                ("field_ty", q(&ty_s(fty))),
+                                ("stored_ty", q(&ty_s(inner))),
+                                ("stored_needs_drop", b(inner.needs_drop(tcx, tenv))),
+                                ("stored_shape", cx.shape(inner, 2, Some(tenv))),
+                            ]));
+                        }
+                    }
+                    lines.push(obj(vec![
+                        ("k", q("slotprobe")),
+                        ("adt", q(&path_s(tcx, did))),
+                        ("name", q(tcx.item_name(did).as_str())),
+                        ("ctx", q(&cn[3..])),
+                        ("has_dtor", b(adt.destructor(tcx).is_some())),
+                        ("fields", arr(fields)),
+                    ]));
+                }
+            }
+        }
+    }
     let head = obj(vec![
         ("k", q("meta")),
         ("tag", q(tag)),
